@@ -228,7 +228,7 @@ def run_sequence(tid, ops, forced=True, seed=0):
 PRIOS = [20, 49, 50, 55, 70, 80, 110]
 
 
-def random_ops(rng, n, assets=(1, 2, 3)):
+def random_ops(rng, n, assets=(1, 2, 3, -1)):
     """A random operation sequence of length n (runs count as one operation).  Starts with a run
     so that pauses happen at non-zero times."""
     ops = []
